@@ -79,12 +79,23 @@ IsFloat(s) ==
      /\ (dot = 0 \/ AllIn(fp, Digits))
      /\ (e = 0 \/ AllIn(ex, Digits))
      /\ (dot # 0 \/ e # 0)
+\* 64-bit ranges on decimal digit strings (TLC's integers are 32 bit): shorter is smaller, equal length compares digit-wise
+DigitVal(c) == CASE c = "0" -> 0 [] c = "1" -> 1 [] c = "2" -> 2 [] c = "3" -> 3 [] c = "4" -> 4 [] c = "5" -> 5 [] c = "6" -> 6
+                 [] c = "7" -> 7 [] c = "8" -> 8 [] c = "9" -> 9
+RECURSIVE DigitsLE(_,_)
+DigitsLE(a, b) == IF a = <<>> THEN TRUE
+                  ELSE IF DigitVal(a[1]) # DigitVal(b[1]) THEN DigitVal(a[1]) < DigitVal(b[1])
+                  ELSE DigitsLE(Tail(a), Tail(b))
+DecLE(a, b) == Len(a) < Len(b) \/ (Len(a) = Len(b) /\ DigitsLE(a, b))
+UMax64 == <<"1","8","4","4","6","7","4","4","0","7","3","7","0","9","5","5","1","6","1","5">>     \* 2^64 - 1
+IMinAbs64 == <<"9","2","2","3","3","7","2","0","3","6","8","5","4","7","7","5","8","0","8">>       \* 2^63
+\* an integer literal beyond 64 bits is still a number: the float nearest to it
 Classify(content) ==
   IF content = <<"n","u","l","l">> THEN NilV
   ELSE IF content \in BoolTrue THEN BoolV("true")
   ELSE IF content \in BoolFalse THEN BoolV("false")
-  ELSE IF IsUInt(content) THEN NumV("u", Join(content))
-  ELSE IF IsInt(content) THEN NumV("i", Join(content))
+  ELSE IF IsUInt(content) THEN NumV(IF DecLE(content, UMax64) THEN "u" ELSE "f", Join(content))
+  ELSE IF IsInt(content) THEN NumV(IF DecLE(Tail(content), IMinAbs64) THEN "i" ELSE "f", Join(content))
   ELSE IF IsFloat(content) THEN NumV("f", Join(content))
   ELSE StrV(content)
 
